@@ -44,6 +44,7 @@ func customOptsUnit() *Unit {
 		".google.protobuf.OneofOptions": "oneof", ".google.protobuf.EnumOptions": "enum", ".google.protobuf.EnumValueOptions": "val",
 		".google.protobuf.ServiceOptions": "svc", ".google.protobuf.MethodOptions": "meth"}
 	exts := map[string][]ext{}
+	declared := map[string][]*descriptorpb.FieldDescriptorProto{}
 	for _, tg := range targets {
 		n := tg.base
 		add := func(name string, e ext) {
@@ -57,7 +58,7 @@ func customOptsUnit() *Unit {
 			if e.ref != "" {
 				fd.TypeName = proto.String("." + e.ref)
 			}
-			f.P.Extension = append(f.P.Extension, fd)
+			declared[tg.extendee] = append(declared[tg.extendee], fd)
 			exts[tg.extendee] = append(exts[tg.extendee], e)
 		}
 		for _, k := range kinds {
@@ -67,6 +68,21 @@ func customOptsUnit() *Unit {
 		add("meta", ext{kind: Message, ref: pkg + ".Meta"})
 		add("names", ext{kind: String, rep: true})
 		add("weights", ext{kind: Double, rep: true}) // proto3 extension: packed by default is not implied for extensions; encoded unpacked below
+	}
+	// declaration order interleaves the extended messages (file, message, field,
+	// ..., file, message, ...): tables the generator groups by extendee must still
+	// line up with the declaration order of the descriptor
+	for i := 0; ; i++ {
+		any := false
+		for _, tg := range targets {
+			if i < len(declared[tg.extendee]) {
+				f.P.Extension = append(f.P.Extension, declared[tg.extendee][i])
+				any = true
+			}
+		}
+		if !any {
+			break
+		}
 	}
 	// raw encoding of one value per declared extension
 	raw := func(extendee string, salt uint64) []byte {
